@@ -84,6 +84,15 @@ def fault_matrix_cases(tier, rng):
                     sc = timers.SilentCase(cfg, 9, cut_dir, cut, None, tag="c14m", poll_ms=250)
                     sc.max_rounds = 60
                     yield sc
+            # the sender's cancel request in mid-transfer, then a receiver that stays silent: the Positive ACK Limit of the
+            # EOF (cancel) exchange is handled as the table says (cancel -> abandon with the EOF's condition, ignore -> carry on,
+            # abandon -> abandon with the limit condition)
+            if side in ("src", "both"):
+                for at in (1, 2):
+                    cfg = Cfg(mode=0, closure=rng.random() < 0.5, max_seg=4, ack_limit=2, nak_limit=2, ack_ms=1000, nak_ms=1000,
+                              cktype=3, **tables((1,)))
+                    yield campaign.TransferCase(cfg, [bytes(rng.getrandbits(8) for _ in range(13))],
+                                                [Fault("d2s", i, "drop") for i in range(0, 14)], ("src", at, True), tag="c14m", max_rounds=40)
             # Filestore Rejection (4) declared while the destination file is created: at the transaction start, and by the
             # re-sent Metadata PDU while the deferred NAK procedure is already running (Metadata lost, EOF first)
             for drop_md, size, ck in ((False, 9, 3), (True, 9, 3), (True, 9, 2), (True, 0, 15), (True, 0, 3), (False, 0, 15)):
